@@ -297,6 +297,43 @@ def body(chk):
                     break
             items.append(coq_case(f, "v", lo, hi, k, e))
             flat.append((f, "v", lo, hi, k, e))
+    # ---- sessions: ONE array-valued Interval object goes through several functions in a row; every result is held and all values are
+    # decided only afterwards, element by element, against the oracle for the ORIGINAL endpoints (a function must not change its argument,
+    # nor an earlier result)
+    from pyuncertainnumber.pba.intervals.number import Interval as _I
+    for sn in range(6 if chk.tier == "quick" else 60):
+        m = rng.randint(2, 5)
+        ivs = []
+        for _ in range(m):
+            lo = 10 ** rng.uniform(-2, 1)
+            ivs.append((lo, lo + 10 ** rng.uniform(-2, 0.7)))            # positive: inside the domain of every function
+        x = _I([a for a, _ in ivs], [b for _, b in ivs])
+        seq = rng.sample(["sin", "cos", "exp", "log", "sqrt", "tanh", "abs", "pow", "sin", "cos"], 5)
+        held = []
+        for f in seq:
+            k = rng.choice([2, 3, -1, -2]) if f == "pow" else None
+            try:
+                held.append((f, k, call(f, x, k)))
+            except Exception as e:
+                chk.report(f"Interval.{f}:session", f"step {len(held) + 1} of a sequence of functions applied to ONE array-valued interval raises {type(e).__name__}: {str(e)[:60]}",
+                           {"kind": "oracle", "intervals": ivs, "sequence": seq})
+                break
+        for step, (f, k, r) in enumerate(held):
+            chk.count(f"session-{f}", key=("session", sn, step))
+            try:
+                los, his = [float(v) for v in np.atleast_1d(r.lo)], [float(v) for v in np.atleast_1d(r.hi)]
+            except Exception:
+                continue
+            bad = None
+            for j, (lo, hi) in enumerate(ivs):
+                why = oracle(f, lo, hi, k, ("ok", los[j], his[j]), rng) if j < len(los) else "missing element"
+                if why:
+                    bad = (j, why)
+                    break
+            if bad:
+                chk.report(f"Interval.{f}:session", f"step {step + 1} ({f}) of a sequence of functions applied to ONE array-valued interval, values read after the last step: element {bad[0]}: {bad[1]}",
+                           {"kind": "oracle", "intervals": ivs, "sequence": seq, "k": k})
+                break
     chunks = []
     CH = 300
     for s in range(0, len(items), CH):
